@@ -16,7 +16,7 @@ from sim.world import Session, classify, exc_signature, reference_world
 
 PROPERTY = "C16"
 SESSIONS = {"quick": 160, "thorough": 4000}
-BUDGET_S = {"quick": 80, "thorough": 1500}
+BUDGET_S = {"quick": 110, "thorough": 1500}
 CAP_S = {"quick": 240, "thorough": 480}
 FORMS = ("built", "optimized", "optimized_nofuse", "lowered")
 RULE = ("one session = one generated recipe x the forms {built, optimized, optimized_nofuse, lowered} pickled after a drawn originating "
@@ -44,6 +44,7 @@ def generate(run_seed, tier):
                 raise out.exc
 
         g = W.Generator(rw, ref_compute, families=fams, knob_space=W.knob_space_default(), max_ops=7, pool_knobs=True, knob_prob=0.4)
+        g.allow_sample = False
         recipe = g.generate(n_targets=rw.choice([1, 2]))
         if recipe is None or not recipe["targets"]:
             return None
